@@ -5,6 +5,8 @@
 From Coq Require Import ZArith List Bool.
 From RP Require Sched.Model Sched.NodeMap Sched.Inv Sched.SchedProofs Sched.RunProofs.
 From RP Require Exec.Model Exec.Oracle Exec.Proofs Exec.ReleaseProofs.
+From Coq Require String.
+From RP Require AppSlots.Model AppSlots.Oracle AppSlots.NodeProofs AppSlots.InvProofs AppSlots.Proofs.
 Import ListNotations.
 
 Module SchedSide.
@@ -97,3 +99,90 @@ Proof. exact released_exactly_once. Qed.
 Print Assumptions C03_executor_releases_exactly_once.
 
 End ExecSide.
+
+Module AppSide.
+Import Coq.Strings.String.
+Import RP.AppSlots.Model RP.AppSlots.Oracle RP.AppSlots.NodeProofs RP.AppSlots.InvProofs RP.AppSlots.Proofs.
+Open Scope string_scope.
+Open Scope Z_scope.
+
+(* Application side: `Pilot.nodelist` (resource_config.NodeList / Node), the helper with which an
+   application chooses the placements it supplies in TaskDescription.slots.  Model: RP.AppSlots.Model;
+   occupations in 1/64 of a core / GPU (BUSY = 64).
+
+   wf_nodes ns0     : the node list as Pilot.nodelist builds it from the agent's resource details --
+                      node ids are the list positions, lfs / mem are numbers >= 0, every core / GPU
+                      is DOWN or occupied between FREE and BUSY;
+   op_ok            : the calls are find_slots / release_slots / verify / Node.find_slot with
+                      non-negative sizes and occupations (find_slots: core occupation > 0);
+   all_disciplined  : release_slots is given slots the application holds (got from find_slots and
+                      not yet given back), counting repetitions;
+   run .. ops       : the answer and the node list after every call (any number of calls);
+   judge            : the clauses the check evaluates on the real objects' trace. *)
+
+(* After EVERY call of ANY sequence the node list is the initial one plus exactly the slots handed out
+   and not yet released (per core, GPU, lfs, mem of every node; DOWN stays DOWN; ids and names
+   unchanged), and a release_slots of held slots never raises: release_slots gives back exactly what
+   find_slots took, on the node it took it from -- also when node names repeat *)
+Theorem C03_app_release_restores :
+  forall (ns0 : list node) (verified : bool) (ops : list op),
+    wf_nodes ns0 -> Forall op_ok ops ->
+    all_disciplined [] ops (run (start_nl ns0 verified) ops) = true ->
+    v_restores (judge ns0 ns0 [] ops (run (start_nl ns0 verified) ops)) = true.
+Proof. exact app_release_restores. Qed.
+Print Assumptions C03_app_release_restores.
+
+(* once everything has been given back the node list EQUALS the initial one *)
+Theorem C03_app_all_released_is_initial :
+  forall (ns0 : list node) (verified : bool) (ops : list op),
+    wf_nodes ns0 -> Forall op_ok ops ->
+    all_disciplined [] ops (run (start_nl ns0 verified) ops) = true ->
+    held_end [] ops (run (start_nl ns0 verified) ops) = [] ->
+    nl_nodes (last_nl (start_nl ns0 verified) (run (start_nl ns0 verified) ops)) = ns0.
+Proof. exact app_all_released_is_initial. Qed.
+Print Assumptions C03_app_all_released_is_initial.
+
+(* a find_slots that does not return slots (None after the roll-back of what it had taken, None by
+   the last-failed short-cut, or an exception of _assert_rr) leaves every node as it was *)
+Theorem C03_app_failed_find_leaves_unchanged :
+  forall (ns0 : list node) (verified : bool) (ops : list op),
+    wf_nodes ns0 -> Forall op_ok ops ->
+    all_disciplined [] ops (run (start_nl ns0 verified) ops) = true ->
+    v_failed (judge ns0 ns0 [] ops (run (start_nl ns0 verified) ops)) = true.
+Proof. exact app_failed_find_leaves_unchanged. Qed.
+Print Assumptions C03_app_failed_find_leaves_unchanged.
+
+Theorem C03_app_failed_find_unchanged_one_call :
+  forall (ns0 : list node) (nl : nlist) (h : list slot) (r : rreq) (n : Z) (nl' : nlist) (res : res),
+    Reached ns0 nl h -> rr_ok r -> 0 < r_co r -> find_slots nl r n = (nl', res) ->
+    (forall sl, res <> RSlots sl) -> nl_nodes nl' = nl_nodes nl.
+Proof. exact failed_find_unchanged. Qed.
+Print Assumptions C03_app_failed_find_unchanged_one_call.
+
+(* REFUTED beyond wf_nodes (recorded findings): node ids that are not the list positions -- the agent
+   keeps the ids when it drops inaccessible nodes -- and nodes built without lfs / mem *)
+Theorem C03_app_gapped_ids_refuted :
+  exists ns0 ops, NoDup (map nd_index ns0) /\ Forall wf_node ns0 /\ Forall op_ok ops /\
+    let tr := run (start_nl ns0 true) ops in
+    all_disciplined [] ops tr = true /\ v_restores (judge ns0 ns0 [] ops tr) = false.
+Proof. exact release_with_gapped_ids_refuted. Qed.
+Print Assumptions C03_app_gapped_ids_refuted.
+
+Theorem C03_app_without_lfs_refuted :
+  exists ns0 ops, positional ns0 /\ Forall op_ok ops /\
+    let tr := run (start_nl ns0 true) ops in
+    all_disciplined [] ops tr = true /\ v_restores (judge ns0 ns0 [] ops tr) = false.
+Proof. exact release_without_lfs_refuted. Qed.
+Print Assumptions C03_app_without_lfs_refuted.
+
+Example C03_app_nonvacuous :
+  let ns0 := [mkNode 0 "localhost" [Some 0; Some 0] [] (Some 100) (Some 0);
+              mkNode 1 "localhost" [Some 0; Some 0] [] (Some 100) (Some 0)] in
+  let r := mkRR 2 64 0 64 10 0 false in
+  let s i := mkSlot [(0, 64); (1, 64)] [] 10 0 i "localhost" in
+  let tr := run (start_nl ns0 true) [OFind r 1; OFind r 1; OFind r 1; ORelease [s 0]; ORelease [s 1]] in
+  map fst tr = [RSlots [s 0]; RSlots [s 1]; RNone; ROk; ROk] /\
+  nl_nodes (last_nl (start_nl ns0 true) tr) = ns0.
+Proof. vm_compute. auto. Qed.
+
+End AppSide.
